@@ -260,9 +260,20 @@ def run_property(pid, tier):
                 w = edfalsify.falsify("ed25519_basic." + fn, trials=1500, seed=seed)
                 thorough_standins.append("ed25519_basic.%s vs affine reference on 1500 random + all small-order points: %s [BOUNDED]" % (fn, "agree" if w is None else "DISAGREE %s" % w))
     vio_lines = []
+    kept = []
     for q, o in real_violations:
         path, found = replay.write_replay(pid, q, o, repo)
+        relative_to_invariant = o.get("kind") == "invariant" or bool((o.get("extra") or {}).get("after_loop_cut"))
+        if relative_to_invariant and not found:
+            # A loop invariant is a proof device of the contract, not part of the property.  A refutation of the invariant itself, or of
+            # a clause on a path that starts from the havocked loop state, shows that THIS invariant does not carry the proof for THIS
+            # loop (e.g. the loop was restructured); without a failing input on the real code that is a failed proof = undecided.
+            undecided.append((q, o, "refuted relative to the contract's loop invariant, and no failing input on the real code was found (model replay, bounded "
+                                    "search, differential scenarios): failed proof, not a violation; solver output in %s" % path))
+            continue
+        kept.append((q, o))
         vio_lines.append("VIOLATION property=%s replay=%s%s" % (pid, path, "" if found else " no-failing-input-found"))
+    real_violations = kept
     n_z3 = len(rel)
     n_dis = sum(1 for _, o in rel if o["status"] == "discharged")
     n_extra = len(extra_ob)
